@@ -11,7 +11,9 @@ import DracoProofs.KdStatus
 namespace Draco.C02Kd
 open Draco Draco.Robust
 
-/-- **status discipline of the kd-tree body decoder**, all inputs, all options -/
+/-- **status discipline of the kd-tree body decoder**, all inputs, all options, every bitstream version: the
+    dispatching `Kd.decodeKdGeometry` with the current (2.3) body and the body of older streams
+    (`Kd.decodeKdGeometryLegacy`: integer and float points tree methods) -/
 theorem kd_disciplined (opts : DecOpts) : Disc (Kd.decodeKdGeometry opts) := Kd.disc_decodeKdGeometry opts
 
 /-- **Status discipline of the complete decoder.** For every byte string and option set `decodeGeometry` returns a
@@ -37,5 +39,13 @@ example : ((Kd.decodeKdGeometry {} { rest := [3, 0, 0, 0, 0], version := 515 }).
 
 example : ((Kd.decodeKdGeometry {} { rest := [3, 0, 0], version := 515 }).1.isSome,
     (Kd.decodeKdGeometry {} { rest := [3, 0, 0], version := 515 }).2.status) = (false, .error) := by decide +kernel
+
+/-- … and the body of a bitstream older than 2.3 (state version 2.2): accepted with status `ok`, rejected with `error` -/
+example : ((Kd.decodeKdGeometry {} { rest := [0, 0, 0, 0, 0], version := 514 }).1.isSome,
+    (Kd.decodeKdGeometry {} { rest := [0, 0, 0, 0, 0], version := 514 }).2.status) = (true, .ok) := by decide +kernel
+
+example : ((Kd.decodeKdGeometry {} { rest := [2, 0, 0, 0, 1, 1, 0, 9, 3, 0, 0, 7], version := 514 }).1.isSome,
+    (Kd.decodeKdGeometry {} { rest := [2, 0, 0, 0, 1, 1, 0, 9, 3, 0, 0, 7], version := 514 }).2.status) =
+    (false, .error) := by decide +kernel
 
 end Draco.C02Kd
